@@ -189,27 +189,33 @@ def run_c18(ctx):
                 "identities; bounded number of entries), every edge replayed on a real Store comparing the call's result and a "
                 "recursive walk of the real tree; B: seeded random operation sequences on real Stores validated by TLC against "
                 "StoreTreeTrace.tla; distinct = graph edges + accepted traces")
-    segs, depth, entries, ids = ctx.pick((("a", "value"), 3, 4, (1, 2)), (("a", "b", "value"), 3, 4, (1, 2, 3)))
-    consts = {"Segs": list(segs), "MaxDepth": depth, "MaxEntries": entries, "Ids": list(ids)}
-    dot = env.subdir("c18") + "/storetree.dot"
-    res = tlc.run("StoreTree", cfg_text(segs, depth, entries, ids), spec_dir=SPEC_DIR, dump_dot=dot, tag="c18")
-    ctx.add_model(res, "StoreTree", consts)
+    graphs = ctx.pick([(("a", "value"), 3, 3, (1, 2))],
+                      [(("a", "b", "value"), 3, 3, (1, 2, 3)), (("a", "value"), 3, 5, (1, 2))])
     total = cov = 0
-    if not res.ok:
-        ctx.diverge(_storelib.model_divergence("C18", res, "StoreTree"))
-    else:
+    for gi, (segs, depth, entries, ids) in enumerate(graphs):
+        consts = {"Segs": list(segs), "MaxDepth": depth, "MaxEntries": entries, "Ids": list(ids)}
+        dot = env.subdir("c18") + "/storetree%d.dot" % gi
+        res = tlc.run("StoreTree", cfg_text(segs, depth, entries, ids), spec_dir=SPEC_DIR, dump_dot=dot, tag="c18g%d" % gi)
+        ctx.add_model(res, "StoreTree/%d" % gi, consts)
+        if not res.ok:
+            ctx.diverge(_storelib.model_divergence("C18", res, "StoreTree"))
+            continue
         tlc.require_coverage(res, ACTIONS, "StoreTree")
         g = _storelib.load_dot(dot)
-        paths, cov, steps, alts, divs = _storelib.replay_graph("C18", g, lambda init: StoreAdapter(), max_len=80)
-        total = g.nedges
+        paths, c, steps, alts, divs = _storelib.replay_graph("C18", g, lambda init: StoreAdapter(), max_len=80)
+        total += g.nedges
+        cov += c
         ctx.diverge(divs)
         ctx.add_validated(len(paths), {"path": [s[1] for s in paths[len(paths) // 2]][:12]})
-        # spec freedom: an edge the implementation answered with the other admitted result
-        ctx.extra.update({"graph_states": len(g.states), "graph_edges": total, "edges_replayed": cov, "replay_steps": steps,
-                          "alternative_answers_taken": alts})
+        # alternative_answers_taken: edges where the implementation gave the other answer the specification admits
+        ctx.extra.setdefault("graphs", []).append({"constants": consts, "states": len(g.states), "edges": g.nedges, "edges_replayed": c,
+                                                   "replay_steps": steps, "alternative_answers_taken": alts})
+        del g, paths
     # binding B
     rng = random.Random(ctx.seed)
-    ntr = ctx.pick(400, 10000)
+    ntr = ctx.pick(300, 6000)
+    if ctx.divs:
+        ntr = min(ntr, 24)      # binding A already diverged: B is abbreviated (each rejected trace is diagnosed by its own TLC run)
     trs = []
     for _ in range(ntr):
         evs, d = _random_trace(rng, ctx.pick(40, 30) if rng.random() < 0.9 else 120)
@@ -235,7 +241,7 @@ def run_c18(ctx):
         ctx.diverge(Divergence("C18", "rejected", name or err, "trace-invariant", "invariant %s violated on a recorded execution" % name,
                                steps=trs[i]))
     ctx.exhaustive = bool(total) and cov == total
-    ctx.extra.update({"random_traces": len(trs), "random_traces_accepted": len(out.accepted),
+    ctx.extra.update({"graph_edges": total, "edges_replayed": cov, "random_traces": len(trs), "random_traces_accepted": len(out.accepted),
                       "distinct_nontrivial": cov + len(out.accepted), "evaluations": cov + sum(len(t) - 1 for t in trs)})
 
 
